@@ -156,6 +156,7 @@ def scenarios_for(prog, x, rng, per_prog):
     pk = ("F", tuple(sorted(part.items())))
     out.append(dict(cfg0=dict(part), answers={}, prompt=False, sched="nat", req=None, key=pk))
     out.append(dict(cfg0={i: rng.choice(["0", "1"]) for i in inputs}, answers={}, prompt=False, sched="nat", req=None, key=None, whatif=True))
+    out.append(dict(cfg0={i: rng.choice(["0", "1"]) for i in inputs}, answers={}, prompt=False, sched="nat", req=None, key=None, whatif=True))
     out.append(dict(cfg0=dict(part), answers={}, prompt=False, sched="rnd", req="shuffle", key=pk))
     # the user stops answering at prompt k: refuses, input ends, or types rubbish
     total = {i: rng.choice(["0", "1"]) for i in inputs}
@@ -198,10 +199,14 @@ def real_runs(programs, rng, per_prog, snap="full"):
                 if read:
                     name = rng.choice(read)
                     store = solver._i
-                    store[name] = "1" if store.config.get(*name.split(".", 1)).strip() == "0" else "0"
-                    tid += 1
                     cfg2 = dict(cfg0)
-                    cfg2[name] = store.config.get(*name.split(".", 1))
+                    if rng.random() < 0.5:
+                        store[name] = "1" if store.config.get(*name.split(".", 1)).strip() == "0" else "0"
+                        cfg2[name] = store.config.get(*name.split(".", 1))
+                    else:
+                        del store[name]              # the user takes the input away again
+                        cfg2.pop(name, None)
+                    tid += 1
                     meta2 = dict(meta)
                     meta2.update({"whatif": name, "cfg0": cfg2})
                     t2, r2, s2 = runs.run_traced(forms, None, request, prog["fieldNames"], user=None, chooser=None, mode="prog", snap=snap, tid=tid,
@@ -249,24 +254,35 @@ def run(pid, tier):
         small = family(tier, sd, "small")
         for k, p in enumerate(small):
             p["_index"] = k + 1
-        prepare_model_dir(work, small)
         cfgp = os.path.join(work, "mc.cfg")
         write_cfg(cfgp, pid)
         t0 = time.time()
-        mc = common.run_tlc("MCSolver", cfgp, cwd=work, timeout=3000 if tier == "thorough" else 900, coverage=(tier == "thorough"))
-        if mc.violated:
-            for v in mc.violated:
-                rep.violation("model:%s" % v, mc.error_excerpt(80), {"kind": "tlc-counterexample", "property_formula": v})
-        elif not mc.ok:
-            raise common.MachineryError("TLC failed on the design model:\n" + mc.error_excerpt(60))
-        cov["states"] = mc.distinct
-        cov["transitions"] = mc.generated
+        cov["states"], cov["transitions"] = 0, 0
+        actions = {}
+        CH = 100                     # programs per TLC run (the constant is parsed and kept in memory per run)
+        for off in range(0, len(small), CH):
+            prepare_model_dir(work, small[off:off + CH])
+            mc = common.run_tlc("MCSolver", cfgp, cwd=work, timeout=3000 if tier == "thorough" else 900, coverage=(tier == "thorough"), heap="12g")
+            if mc.violated:
+                for v in mc.violated:
+                    rep.violation("model:%s" % v, mc.error_excerpt(80), {"kind": "tlc-counterexample", "property_formula": v})
+            elif not mc.ok:
+                raise common.MachineryError("TLC failed on the design model:\n" + mc.error_excerpt(60))
+            cov["states"] += mc.distinct
+            cov["transitions"] += mc.generated
+            if tier == "thorough":
+                c = mc.coverage()
+                for a in c:
+                    if a in ("Start", "Silent", "Pop", "FDrain", "BufAttempt", "Ask", "IDrain", "Finish"):
+                        actions[a] = actions.get(a, 0) + c[a][1]
         cov["model_programs"] = len(small)
         cov["model_formulas"] = PROPS[pid]["inv"] + PROPS[pid]["props"]
         cov["model_wall_s"] = round(time.time() - t0, 1)
         if tier == "thorough":
-            c = mc.coverage()
-            cov["action_coverage"] = {a: c[a][1] for a in c if a in ("Start", "Silent", "Pop", "FDrain", "FAttempt", "Ask", "IDrain", "IAttempt", "Finish")}
+            cov["action_coverage"] = actions
+            never = [a for a in ("Start", "Silent", "Pop", "FDrain", "BufAttempt", "Ask", "IDrain", "Finish") if actions.get(a, 0) == 0]
+            if never:
+                raise common.MachineryError("vacuous model run: actions never taken: %s" % never)
 
         # (T)+(J) the real solver on the same programs and on larger ones
         large = family(tier, sd, "large")
